@@ -178,6 +178,9 @@ def counter(repo, chk):
         chk.bad('C15.4a', 'R8', init.site(), 'self.<bound> = bound', 'the constructor does not store its bound parameter unmodified')
         return
     chk.ok('C15.4a', 'R8', init.site(), f'self.{battr} = {bparam}', 'bound stored unmodified')
+    vdefs = Scope(add).defs.get(val, [])
+    chk.expect(len(vdefs) == 1, 'C15.4e', 'origin', add.site(), f'parameter {val} of add()', 'the counted key is the value passed in, unmodified',
+               f'the parameter {val} is re-bound inside add() before it is counted: distinct items are merged onto one key (over-count) or counted under a key that never occurred')
     cfg = CFG(add.node)
     muts = []
     for n in own_nodes(add.node):
